@@ -15,7 +15,16 @@ T="${DEMO%.rs}"
 git -C "$WT" apply "$SRC/patch.diff" || { echo "patch does not apply"; exit 2; }
 (cd "$WT" && cargo test -p "$CRATE" --offline --test "$T" >"$OUT/demo_with.log" 2>&1); r_with=$?
 rm -f "$WT/$CRATE/tests/$DEMO"
-(cd "$WT" && cargo test -p "$CRATE" --offline >"$OUT/existing_tests_with.log" 2>&1); r_tests=$?
+(cd "$WT" && cargo test -p "$CRATE" --offline --no-fail-fast --lib --tests >"$OUT/existing_tests_with.log" 2>&1); r_tests=$?
+# the baseline itself has one always-failing test (BASELINE.json always_fail): only other failures count
+# sleep-based multi-thread tests flake when the machine is overloaded: a failing test is re-run alone twice and only counts if it fails again
+other_fail=0
+for t in $(grep -E "^test .* \.\.\. FAILED" "$OUT/existing_tests_with.log" | grep -v "rsp_ql_dstream_semantics" | awk '{print $2}' | sort -u); do
+  ok=0; for k in 1 2; do (cd "$WT" && cargo test -p "$CRATE" --offline --lib --tests "$t" 2>&1 | grep -E "^test .*$t \.\.\. ok" >/dev/null) && ok=$((ok+1)); done
+  echo "re-run of $t alone: $ok/2 passes" >> "$OUT/existing_tests_with.log"
+  [ $ok -eq 2 ] || other_fail=$((other_fail+1))
+done
+if [ "$other_fail" -eq 0 ] && grep -q "test result" "$OUT/existing_tests_with.log" && ! grep -q "^error\[" "$OUT/existing_tests_with.log"; then r_tests=0; fi
 git -C "$WT" checkout -- . ; git -C "$WT" clean -fdq -e target
 echo "[$P-$N] demo without patch: exit $r_without (want 0); with patch: exit $r_with (want != 0); existing $CRATE tests with patch: exit $r_tests (want 0)"
 # ---- against the checks
